@@ -10,6 +10,8 @@ import (
 	"verif/harness/abci"
 	"verif/harness/hx"
 
+	"github.com/cosmos/cosmos-sdk/crypto/keys/secp256k1"
+
 	collectivestypes "github.com/KiraCore/sekai/x/collectives/types"
 	custodytypes "github.com/KiraCore/sekai/x/custody/types"
 	govtypes "github.com/KiraCore/sekai/x/gov/types"
@@ -58,6 +60,8 @@ type world struct {
 	fresh    int
 	late     bool
 	ethVictim sdk.AccAddress
+	ethKey    *secp256k1.PrivKey // Ethereum-style account (address = Ethereum address of the key)
+	ethAddr   sdk.AccAddress
 	rrTotal, rrHeld sdk.Int
 	rrVariant string
 	custN, custMode int
@@ -169,6 +173,7 @@ func (w *world) history(only string) {
 	w.setupCollective()
 	w.ethVictim = w.freshAddr()
 	w.id(w.ethVictim.String())
+	w.setupEthAccount()
 	w.must("fund-eth-victim", []sdk.Msg{banktypes.NewMsgSend(w.addr(0), w.ethVictim, sdk.NewCoins(ukex(5_000_000_000)))}, []int{0})
 	w.end()
 	// second block: time passes so that undelegations mature
@@ -949,6 +954,36 @@ func (w *world) opTable() map[string]opFn {
 			s := []int{1, 2, 3, 6}[w.r.Intn(4)] // holders of no recovery tokens; a7's swept holding is tried at the end
 			na := w.freshAddr()
 			w.tx("recovery-rotate-validator", true, []sdk.Msg{recoverytypes.NewMsgRotateValidatorByHalfRRTokenHolder(w.astr(s), w.astr(0), na.String())}, []int{s})
+		},
+		"h:eth-honest": func(w *world) { // the Ethereum-style account sends its own raw transaction
+			w.ethEnvelope("eth-honest", false, 0, w.addr(w.r.Intn(nAcc)), 1+int64(w.r.Intn(1000)), nil)
+		},
+		"x:eth-payload-then-appended": func(w *world) {
+			// an honestly signed raw transaction of the victim (fresh, or one already accepted) as the
+			// first message, followed by 1-2 ordinary messages naming the victim that nobody signed
+			s := w.r.Intn(nAcc)
+			extra := []sdk.Msg{banktypes.NewMsgSend(w.ethAddr, w.addr(s), sdk.NewCoins(ukex(1_000_000+int64(w.r.Intn(1000)))))}
+			switch w.r.Intn(3) {
+			case 0:
+				extra = append(extra, mstypes.NewMsgDelegate(w.ethAddr.String(), w.valStr, sdk.NewCoins(ukex(50_000))))
+			case 1:
+				extra = append(extra, custodytypes.NewMsgSend(w.ethAddr, w.addr(s), sdk.NewCoins(ukex(70_000)), "", sdk.NewCoins(ukex(1000))))
+			}
+			off := int64(0)
+			if w.r.Chance(25) {
+				off = -1
+			}
+			w.ethEnvelope("eth-payload-then-appended", true, off, w.addr(w.other(s)), 5, extra)
+		},
+		"x:direct-signature-covers-first-only": func(w *world) {
+			v := w.r.Intn(nAcc)
+			s := w.other(v)
+			m0 := banktypes.NewMsgSend(w.addr(v), w.addr(w.other(v)), sdk.NewCoins(ukex(5)))
+			extra := []sdk.Msg{banktypes.NewMsgSend(w.addr(v), w.addr(s), sdk.NewCoins(ukex(900_000)))}
+			if w.r.Bool() {
+				extra = append(extra, mstypes.NewMsgClaimRewards(w.astr(v)))
+			}
+			w.coveredFirstOnly("direct-signature-covers-first-only", v, m0, sdk.NewCoins(ukex(5)), extra)
 		},
 		"x:eth-raw-forged-sender": func(w *world) {
 			s := w.r.Intn(nAcc)
